@@ -381,7 +381,14 @@ pub fn structured_table(rng: &mut Rng, thorough: bool) -> Table {
         }
     }
     // optional: add predecessor-less states (unreachable), including inequivalent ones
-    let extra = if rng.chance(1, 2) { rng.usize(4) } else { 0 };
+    let mut extra = if rng.chance(1, 2) { rng.usize(4) } else { 0 };
+    // sometimes land exactly on 63, 64 or 65 states in total, with at least one unreachable state
+    if n >= 56 && n <= 64 && rng.chance(2, 3) {
+        let target = *rng.pick(&[63usize, 64, 64, 64, 65]);
+        if target > n {
+            extra = target - n;
+        }
+    }
     for e in 0..extra {
         delta.push((0..=nl).map(|_| rng.usize(n)).collect());
         fin.push(if e % 2 == 0 { rng.chance(1, 2) } else { true });
@@ -554,7 +561,13 @@ pub fn gen_grey(rng: &mut Rng, thorough: bool) -> Spec {
                 // default declared although the labels cover everything
                 let l = labels(rng, 2);
                 spec.calls.push(Call::Trans(l[0], 0, MAXC, t));
-                spec.calls.push(Call::Default(l[0], t));
+                // the default is never used (the label covers everything); sometimes it names another state
+                let dt = if rng.chance(1, 2) { t } else { s };
+                if rng.chance(1, 2) {
+                    spec.calls.push(Call::Default(l[0], dt));
+                } else {
+                    spec.calls.insert(0, Call::Default(l[0], dt));
+                }
             }
         }
     }
